@@ -1,4 +1,5 @@
 pub mod binfield;
+pub mod ct;
 pub mod engine;
 pub mod fieldapi;
 pub mod ftypes;
@@ -6,6 +7,7 @@ pub mod gen;
 pub mod points;
 pub mod props;
 pub mod selftest;
+pub mod transcript;
 
 /// additional self tests: fast reference routines against their definitional versions, curve constants
 /// against what crrl publishes
